@@ -48,6 +48,7 @@ type OCSPResp struct {
 	NoBytes    bool                  // successful status without responseBytes
 	RespType   asn1.ObjectIdentifier // nil: id-pkix-ocsp-basic
 	ZeroSig    bool                  // signature bytes all zero
+	EmptySig   bool                  // zero-length signature bit string
 	TruncSig   bool                  // signature truncated to half
 	BreakSig   bool                  // one signature bit flipped
 	ByName     bool                  // ResponderID byName instead of byKey
@@ -169,6 +170,8 @@ func BuildOCSP(r *OCSPResp) []byte {
 	algDER, sig := SignTBS(r.SignKey, tbsDER)
 	sig = append([]byte{}, sig...)
 	switch {
+	case r.EmptySig:
+		sig = []byte{}
 	case r.ZeroSig:
 		for i := range sig {
 			sig[i] = 0
